@@ -148,6 +148,70 @@ def parse_cs(case):
     return {"min": int(f[1]), "order": f[2], "svcs": svcs, "blocks": blocks}
 
 
+RE_NAT10 = re.compile(r"^[0-9]{7,10}$")
+RE_OFF = re.compile(r"^-?[0-9]{1,6}$")
+
+
+def parse_gs(case):
+    """gs <flags> <M> <defrepl> <pagesize> <secs> <services> <blocks> <colls> -> dict or None"""
+    f = case.split(" ")
+    if len(f) != 9 or f[0] != "gs" or not re.match(r"^[01]{3}$", f[1]) or not RE_NAT10.match(f[2]) \
+            or not RE_NAT.match(f[3]) or not RE_NAT.match(f[4]) or not f[7]:
+        return None
+    m = int(f[2])
+    if m < 1000000 or m > 4000000000 or int(f[3]) > 9 or int(f[4]) > 9:
+        return None
+    svcs = _parse_services(f[6])
+    if svcs is None:
+        return None
+    if f[5] == "-":
+        if svcs:
+            return None
+        secs = []
+    else:
+        if not re.match(r"^[01]+$", f[5]) or len(f[5]) != len(svcs):
+            return None
+        secs = [c == "1" for c in f[5]]
+    blocks, seen = [], set()
+    for b in f[7].split("~"):
+        p = b.split(":")
+        if len(p) != 2 or not RE_HASH.match(p[0]) or p[0] in seen:
+            return None
+        seen.add(p[0])
+        reps = []
+        if p[1] != "-":
+            for r in p[1].split(","):
+                at = r.split("@")
+                if len(at) != 2 or not RE_OFF.match(at[1]) or 0 <= int(at[1]) < 3600:
+                    return None
+                one = _parse_reps(at[0] + "@0", svcs)
+                if one is None:
+                    return None
+                reps.append((one[0][0], one[0][1], int(at[1])))
+        blocks.append({"hash": p[0], "reps": reps})
+    colls = []
+    if f[8] != "-":
+        for c in f[8].split("&"):
+            q = c.split("*")
+            if len(q) != 4 or not RE_NAT.match(q[0]) or (q[1] != "d" and not RE_NAT.match(q[1])):
+                return None
+            classes = []
+            if q[2] != "-":
+                for cl in q[2].split("+"):
+                    if not RE_CLASS.match(cl) or cl.endswith("!"):
+                        return None
+                    classes.append(cl)
+            bl = []
+            if q[3] != "-":
+                for x in q[3].split("+"):
+                    if not RE_NAT.match(x) or int(x) >= len(blocks):
+                        return None
+                    bl.append(int(x))
+            colls.append({"pdh": int(q[0]), "repl": None if q[1] == "d" else int(q[1]), "classes": classes, "blocks": bl})
+    return {"flags": f[1], "M": m, "defrepl": int(f[3]), "pagesize": int(f[4]), "secs": secs, "svcs": svcs,
+            "blocks": blocks, "colls": colls}
+
+
 def mount_uuid(si, mi):
     return "zzzzz-nyw5e-s%05dm%08d" % (si, mi)
 
@@ -232,11 +296,45 @@ def _compare_cs(case, impl, model):
     return True
 
 
+def _strip_pull_sources(o):
+    """in a whole sweep the arrival order of the index entries, hence `Replicas[0]`, hence the pull
+    source, depends on goroutine scheduling: any holder is allowed (the oracle checks it is one)"""
+    o = dict(o)
+    o["P"] = [(si, {k: v for k, v in e.items() if k != "servers"}) for si, e in o["P"]]
+    return o
+
+
+def _compare_gs(case, impl, model):
+    ip, mp = impl.split(" # "), model.split(" # ")
+    if impl.startswith("err ") or model.startswith("err "):
+        return impl == model
+    if len(ip) != 4 or len(mp) != 3 or ip[0] != mp[0] or ip[3] != mp[2]:
+        return False
+    ib, mb = ip[1].split(" ~ "), mp[1].split(" ~ ")
+    if len(ib) != len(mb):
+        return False
+    try:
+        for i, m in zip(ib, mb):
+            alts = m.split(" | ")
+            if i == "absent" or "absent" in alts:
+                if alts != ["absent"] or i != "absent":
+                    return False
+                continue
+            key = lambda o: _canon_outcome(_strip_pull_sources(o), False) + (o["refs"],)
+            if key(parse_outcome(i)) not in {key(parse_outcome(a)) for a in alts}:
+                return False
+    except Exception:
+        return False
+    return True
+
+
 def compare(case, impl, model):
     if impl == "bad-op" or model == "bad-op":
         return impl == model
     if case.startswith("cs "):
         return _compare_cs(case, impl, model)
+    if case.startswith("gs "):
+        return _compare_gs(case, impl, model)
     si, sm = split_result(impl), split_result(model)
     if si is None or sm is None or len(si[1]) != 1:
         return False
@@ -293,6 +391,8 @@ def oracle(case, impl):
         return "driver: " + impl[:200]
     if case.startswith("cs "):
         return _oracle_cs(case, impl)
+    if case.startswith("gs "):
+        return _oracle_gs(case, impl)
     lay = parse_case(case)
     if lay is None:
         return None if impl == "bad-op" else "driver: malformed case was not rejected"
@@ -311,6 +411,59 @@ def _oracle_cs(case, impl):
     ip = impl.split(" # ")
     if len(ip) != 3:
         return "driver: unparsable result " + impl[:100]
+    return _oracle_blocks(cs, ip)
+
+
+def gs_as_blocks(gs, blind=False):
+    """The sweep case in the shape the block oracle understands. Time is counted in seconds relative to
+    M = now − BlobSignatureTTL (MinMtime = 0). A device is one store: a replica given for one mount
+    is a replica on every mount with the same non-blank DeviceID. The desired replication comes from
+    the collections as the API server stores them: replication_desired (null = the cluster default)
+    for each class of storage_classes_desired (none = default). `blind` erases the classes (what a
+    client that does not select the attribute is given)."""
+    svcs = gs["svcs"]
+    allm = [(si, mi) for si, s in enumerate(svcs) for mi in range(len(s["mounts"]))]
+
+    def same(a, b):
+        da, db = svcs[a[0]]["mounts"][a[1]]["dev"], svcs[b[0]]["mounts"][b[1]]["dev"]
+        return a == b or (da != "" and da == db)
+
+    blocks = []
+    for bi, b in enumerate(gs["blocks"]):
+        reps = [(v[0], v[1], off) for (si, mi, off) in b["reps"] for v in allm if same((si, mi), v)]
+        colls = []
+        for c in gs["colls"]:
+            n = gs["defrepl"] if c["repl"] is None else c["repl"]
+            for x in c["blocks"]:
+                if x == bi:
+                    colls.append((c["pdh"], n, [] if blind else c["classes"]))
+        blocks.append({"hash": b["hash"], "reps": reps, "colls": colls})
+    return {"min": 0, "svcs": svcs, "blocks": blocks}
+
+
+def _oracle_gs(case, impl, blind=False):
+    """One sweep of Balancer.Run against a stub cluster: every block is judged like a single-block
+    case against what the cluster really holds and what the collections really ask for; what was
+    sent to the keepstores must be the computed lists."""
+    gs = parse_gs(case)
+    if gs is None:
+        return None if impl == "bad-op" else "driver: malformed case was not rejected"
+    ip = impl.split(" # ")
+    if impl.startswith("err "):
+        if len(ip) != 2 or not ip[1].startswith("sent=T:none,P:none "):
+            return "json: change sets were sent although the sweep failed its sanity checks (%s)" % impl[:100]
+        return None
+    if len(ip) != 4:
+        return "driver: unparsable result " + impl[:100]
+    tail = dict(t.split("=", 1) for t in ip[3].split(" "))
+    if tail.get("minmtime") != "ok":
+        return "ttl: MinMtime is not now − BlobSignatureTTL"
+    if "diff" in tail.get("sent", "diff"):
+        return "json: a list sent to a keepstore differs from the change set computed for it (%s)" % tail.get("sent")
+    return _oracle_blocks(gs_as_blocks(gs, blind), ip[:3])
+
+
+def _oracle_blocks(cs, ip):
     blocks = ip[1].split(" ~ ")
     if len(blocks) != len(cs["blocks"]):
         return "driver: block count"
@@ -367,6 +520,8 @@ def _oracle_block(lay, impl):
         if ent["mount_uuid"] not in by_uuid or by_uuid[ent["mount_uuid"]][0] != si:
             return "json: trash names a mount that does not belong to the receiving service"
         tsi, tmi = by_uuid[ent["mount_uuid"]]
+        if (tsi, tmi) in have and ent["block_mtime"] not in have[(tsi, tmi)] and all(mt >= lay["min"] for mt in have[(tsi, tmi)]):
+            return "ttl: trash request for a mount whose only replica of the block is newer than the signature TTL (block_mtime %s names no replica there)" % (ent["block_mtime"],)
         if (tsi, tmi) not in have or ent["block_mtime"] not in have[(tsi, tmi)]:
             return "json: trash block_mtime is not an observed mtime of a replica on that mount"
         if ent["block_mtime"] >= lay["min"]:
@@ -428,6 +583,24 @@ def _oracle_block(lay, impl):
 # F1, F2, F12 and F05a were repaired by fix: commits in /repo (harness/props/C05.findings.json, status
 # "fixed"); their witnesses are in corpus/C05 and must pass. There is no finding_of: any failure of
 # any clause on any layout is a VIOLATION.
+
+
+def finding_of(case, impl, why, model=None):
+    """F05b: EachCollection does not select storage_classes_desired, so keep-balance never learns the
+    classes a collection asks for. Matched only for a sweep case (op gs) in which some collection asks
+    for a class other than default, the failing clause is the under-replication or the safety clause,
+    the implementation behaves exactly as the model of the current code, and the same output passes
+    every clause when judged against the class-blind reading of the collections."""
+    if not case.startswith("gs ") or not why or not why.startswith(("unsafe:", "underrep:")):
+        return None
+    gs = parse_gs(case)
+    if gs is None or not any(c["classes"] and c["classes"] != ["default"] for c in gs["colls"]):
+        return None
+    if model is not None and not compare(case, impl, model):
+        return None
+    if _oracle_gs(case, impl, blind=True) is not None:
+        return None
+    return "F05b"
 
 
 # ----------------------------------------------------------------------------- generator
@@ -660,7 +833,76 @@ def _cs_case(rng):
     return "cs %d %s %s %s" % (minm, rng.choice(["ri", "ir"]), f[3], "~".join(blocks))
 
 
+def _gs_case(rng):
+    """One sweep of Balancer.Run: a generated layout, 1-4 blocks, 0-5 collections (replication_desired
+    null/0-4, storage classes none/offered/unoffered, 0-3 blocks each, a block possibly twice), index
+    timestamps in nanoseconds or (some services, 25 % of the cases) in seconds, old/new/colliding,
+    commit flags, page sizes, default replication 1-3 (rarely 0)."""
+    base = _concentrated_case(rng) if rng.random() < 0.4 else _random_case(rng, 6)
+    lay = parse_case(base)
+    f = base.split(" ")
+    known = sorted(known_classes(lay))
+    allm = [(si, mi) for si, s in enumerate(lay["svcs"]) for mi in range(len(s["mounts"]))]
+    minm = lay["min"]
+    M = rng.choice([1600000000, 1600000000, 1234567890, 1000000, 4000000000, 1790000123])
+    secs = "".join(("1" if rng.random() < 0.5 else "0") for _ in lay["svcs"]) if rng.random() < 0.25 else "0" * len(lay["svcs"])
+    defrepl = rng.choice([1, 2, 2, 2, 3]) if rng.random() < 0.98 else 0
+
+    def off(mt):      # keeps order and collisions of the single-block case
+        return -min(1 + (minm - 1 - mt), 900000) if mt < minm else min(3600 + (mt - minm), 900000)
+
+    blocks = ["%s:%s" % (lay["hash"], ",".join("%d.%d@%d" % (si, mi, off(mt)) for si, mi, mt in lay["reps"]) or "-")]
+    nblk = 1 + rng.choice([0, 1, 1, 2, 3])
+    for _ in range(nblk - 1):
+        reps = []
+        dens = rng.choice([0.0, 0.0, 0.3, 0.6, 1.0])
+        for si, mi in allm:
+            if rng.random() < dens:
+                reps.append("%d.%d@%d" % (si, mi, rng.choice([-100, -1, -5, -5, 3600, 3605, -2, -86400])))
+        rng.shuffle(reps)
+        blocks.append("%s:%s" % (_hash(rng), ",".join(reps) or "-"))
+    colls = []
+    npdh = [0]
+
+    def coll(n, classes, bl):
+        npdh[0] += 1
+        r = "d" if (n == defrepl and rng.random() < 0.7) else str(n)
+        return "%d*%s*%s*%s" % (rng.choice([npdh[0], npdh[0], rng.randint(1, 4)]), r, "+".join(classes) or "-",
+                                "+".join(map(str, bl)) or "-")
+
+    for c, n in lay["desired"].items():
+        others = [b for b in range(1, nblk) if rng.random() < 0.3]
+        colls.append(coll(n, [] if c == "default" and rng.random() < 0.7 else [c], [0] + others))
+    for _ in range(rng.choice([0, 0, 1, 1, 2, 3])):
+        k = rng.choice([0, 0, 0, 1, 1, 2])
+        pool = known + (["nosuchclass"] if rng.random() < 0.1 else [])
+        bl = [rng.randrange(nblk) for _ in range(rng.choice([0, 1, 1, 2, 3]))]
+        colls.append(coll(rng.choice([0, 1, 2, 2, 3, 4]), rng.sample(pool, min(k, len(pool))), bl))
+    rng.shuffle(colls)
+    if rng.random() < 0.02:
+        colls = []
+    flags = rng.choice(["110", "111", "110", "111", "010", "100", "000", "011", "101", "001"])
+    return "gs %s %d %d %d %s %s %s %s" % (flags, M, defrepl, rng.choice([0, 0, 1, 2, 3, 5]), secs or "-", f[3],
+                                          "~".join(blocks), "&".join(colls) or "-")
+
+
 def _malformed(rng, good):
+    if good.startswith("gs "):
+        g = good.split(" ")
+        r = rng.randrange(6)
+        if r == 0:
+            g[1] = "11"
+        elif r == 1:
+            g[2] = "999"
+        elif r == 2:
+            g[7] = g[7].split(":")[0] + ":0.0@5" if g[6] != "-" else g[7] + "~" + g[7].split("~")[0]
+        elif r == 3:
+            g[8] = "1*2*-*99"
+        elif r == 4:
+            g[5] = g[5] + "1"
+        else:
+            g[8] = "1*x*-*0"
+        return " ".join(g)
     if good.startswith("cs "):
         g = good.split(" ")
         r = rng.randrange(4)
@@ -806,6 +1048,8 @@ def generate(rng, tier):
             cases.append(_concentrated_case(rng))
         for _ in range(1500):
             cases.append(_cs_case(rng))
+        for _ in range(1200):
+            cases.append(_gs_case(rng))
     else:
         for _ in range(150000):
             cases.append(_random_case(rng, 16))
@@ -813,6 +1057,8 @@ def generate(rng, tier):
             cases.append(_concentrated_case(rng))
         for _ in range(60000):
             cases.append(_cs_case(rng))
+        for _ in range(40000):
+            cases.append(_gs_case(rng))
         # exhaustive over structure x sharing x classes x replica subset x desired for <= 5 mounts
         # (454 502 combinations), every 3rd combination (offset by the seed) for 6 mounts (1 217 360);
         # flags, replication, mtimes and the block hash are drawn at random for each combination
@@ -827,7 +1073,7 @@ def generate(rng, tier):
             if (n + off) % 9 == 0:
                 cases.append(_spec_case(rng, sp))
     nbad = 60 if tier == "quick" else 600
-    src = cases[:2000] + [c for c in cases if c.startswith("cs ")][:500]
+    src = cases[:2000] + [c for c in cases if c.startswith("cs ")][:500] + [c for c in cases if c.startswith("gs ")][:500]
     for _ in range(nbad):
         cases.append(_malformed(rng, rng.choice(src)))
     return cases
@@ -845,6 +1091,9 @@ def _rank_order(lay):
 
 
 def nontrivial_key(case, impl):
+    if case.startswith("gs "):
+        gs = parse_gs(case)
+        return case if gs and (gs["colls"] or any(b["reps"] for b in gs["blocks"])) else None
     if case.startswith("cs "):
         cs = parse_cs(case)
         return case if cs and any(b["reps"] or b["colls"] for b in cs["blocks"]) else None
@@ -862,6 +1111,15 @@ def describe(cases, impl):
          "with_classes": 0, "with_ro": 0, "no_replica": 0, "outcomes": {"trash": 0, "pull": 0, "lost": 0, "none": 0},
          "desired_max": {}}
     for c, r in zip(cases, impl):
+        if c.startswith("gs ") and parse_gs(c) is not None:
+            g = parse_gs(c)
+            d["gs_cases"] = d.get("gs_cases", 0) + 1
+            d["gs_blocks"] = d.get("gs_blocks", 0) + len(g["blocks"])
+            d["gs_with_seconds_server"] = d.get("gs_with_seconds_server", 0) + any(g["secs"])
+            d["gs_with_class_request"] = d.get("gs_with_class_request", 0) + any(x["classes"] for x in g["colls"])
+            d["gs_dry_run"] = d.get("gs_dry_run", 0) + (g["flags"][:2] != "11")
+            d["gs_sanity_error"] = d.get("gs_sanity_error", 0) + bool(r and r.startswith("err "))
+            continue
         if c.startswith("cs ") and parse_cs(c) is not None:
             d["cs_cases"] = d.get("cs_cases", 0) + 1
             d["cs_blocks"] = d.get("cs_blocks", 0) + len(parse_cs(c)["blocks"])
@@ -897,6 +1155,8 @@ def describe(cases, impl):
 
 
 def neighbours(case, rng):
+    if case.startswith("gs "):
+        return [_gs_case(rng) for _ in range(5)]
     if case.startswith("cs "):
         return [_cs_case(rng) for _ in range(5)]
     lay = parse_case(case)
